@@ -183,6 +183,18 @@ def step (s : St) (line : String) : St × String :=
         (s, showR (fun outs => " ".intercalate ("it" :: showOuts showItem ops outs)) (runOps (Args.next m e fuel) k ops (argsOs e)))
       else (s, "bad-op")
     | _, _ => (s, "bad-op")
+  | "legacy-it" :: kind :: toks =>
+    -- the same script through the bodies of `len` / `size_hint` before the `fix:` commit d3e06ee (history witness)
+    match s.img, parseOps toks with
+    | some (m, e, fuel), some ops =>
+      if ops.isEmpty then (s, "bad-op") else
+      let k := e.argc + 2
+      if kind = "os" then
+        (s, showR (fun outs => " ".intercalate ("it" :: showOuts Drv.hex ops outs)) (Legacy.runOps (ArgsOs.next m e fuel) k ops (argsOs e)))
+      else if kind = "args" then
+        (s, showR (fun outs => " ".intercalate ("it" :: showOuts showItem ops outs)) (Legacy.runOps (Args.next m e fuel) k ops (argsOs e)))
+      else (s, "bad-op")
+    | _, _ => (s, "bad-op")
   | "env" :: hs =>
     match unhexAll hs with
     | some env => ({ s with env := env }, "ok")
